@@ -30,6 +30,23 @@ class SymArray(_np.ndarray):
                 pass
         _np.ndarray.__setitem__(self, k, v)
 
+    def _fold(self, f, axis, name):
+        if not has_sym(self):
+            return getattr(_np.asarray(conc(_np.asarray(self))), name)(axis=axis)
+        if axis is not None:
+            raise HarnessError("SymArray.%s with axis on symbolic content" % name)
+        vals = list(_np.ndarray.ravel(self))
+        r = vals[0]
+        for v in vals[1:]:
+            r = f(r, v)
+        return r
+
+    def max(self, axis=None, **k):
+        return self._fold(smax, axis, "max")
+
+    def min(self, axis=None, **k):
+        return self._fold(smin, axis, "min")
+
 
 def S(x):
     """View as SymArray if object ndarray"""
@@ -115,6 +132,11 @@ def exp_axioms():
             ax.append(z3.Implies(q <= p, EXP(q) <= EXP(p)))
             ax.append(z3.Implies(p < q, EXP(p) < EXP(q)))
             ax.append(z3.Implies(q < p, EXP(q) < EXP(p)))
+    for p in pts:
+        # true facts about exp used as instantiated axioms: tangent at 0, and the Pade(1,1) bounds
+        ax.append(EXP(p) >= 1 + p)
+        ax.append(z3.Implies(p <= 0, EXP(p) * (2 - p) >= 2 + p))
+        ax.append(z3.Implies(z3.And(p >= 0, p < 2), EXP(p) * (2 - p) <= 2 + p))
     return ax
 
 
@@ -349,7 +371,13 @@ class ShimNP:
         for idx in _np.ndindex(a.shape):
             wi = w[idx]
             if isinstance(wi, SB):
-                res[idx] = ite(wi.e, _guarded_div(a[idx], b[idx], wi.e), res[idx])
+                cur = res[idx]
+                if isinstance(cur, (float, _np.floating)) and (cur != cur or _isinf(cur)):
+                    # the default is non-finite: cannot be joined into a real-valued If-term, fork instead
+                    if bool(wi):
+                        res[idx] = a[idx] / b[idx]
+                else:
+                    res[idx] = ite(wi.e, _guarded_div(a[idx], b[idx], wi.e), cur)
             elif bool(wi):
                 res[idx] = a[idx] / b[idx]
         return res
@@ -527,7 +555,7 @@ class ShimSC:
     def promotetoarray(self, x, *a, **k):
         if has_sym(x):
             if isinstance(x, _np.ndarray):
-                return x if x.ndim else x.reshape(1)
+                return x.copy() if x.ndim else x.reshape(1).copy()  # the real function copies (np.array)
             if isinstance(x, (list, tuple)):
                 r = _np.empty(len(x), dtype=object)
                 for i, v in enumerate(x):
@@ -545,6 +573,91 @@ class ShimSC:
         if has_sym(x):
             return copy.deepcopy(x)
         return self._sc.dcp(x, *a, **k)
+
+
+class _ShimInterp1dPrevious:
+    def __init__(self, t1, v1, fill):
+        self.t1 = _np.asarray(conc(_np.asarray(t1)), dtype=float)
+        self.v1 = v1
+        self.fill = fill
+
+    def __call__(self, t2):
+        t2a = _np.atleast_1d(_np.asarray(conc(_np.asarray(t2)), dtype=float))
+        out = _np.empty(t2a.shape, dtype=object)
+        for i, t in enumerate(t2a):
+            if t < self.t1[0]:
+                out[i] = self.fill[0]
+            elif t > self.t1[-1]:
+                out[i] = self.fill[1]
+            else:
+                out[i] = self.v1[int(_np.searchsorted(self.t1, t, side="right") - 1)]
+        return out.view(SymArray)
+
+
+class _ShimScipyInterpolate:
+    def __init__(self, real):
+        self._real = real
+
+    def __getattr__(self, k):
+        v = getattr(self._real, k)
+
+        def guarded(*a, **kw):
+            if has_sym(a) or has_sym(kw):
+                raise HarnessError("unmodelled scipy.interpolate.%s with symbolic argument" % k)
+            return v(*[conc(x) for x in a], **{kk: conc(x) for kk, x in kw.items()})
+
+        return guarded if callable(v) and not isinstance(v, type) else v
+
+    def interp1d(self, t1, v1, kind="linear", copy=True, assume_sorted=False, bounds_error=None, fill_value=_np.nan, **kw):
+        if not has_sym(v1) and not has_sym(fill_value):
+            f = self._real.interp1d(conc(_np.asarray(t1)), conc(_np.asarray(v1)), kind=kind, copy=copy, assume_sorted=assume_sorted, bounds_error=bounds_error, fill_value=conc(fill_value) if not isinstance(fill_value, tuple) else tuple(float(x) for x in fill_value), **kw)
+            return lambda t2: obj(f(conc(_np.asarray(t2))))
+        if kind != "previous" or bounds_error is not False or not isinstance(fill_value, tuple) or has_sym(t1):
+            raise HarnessError("scipy.interpolate.interp1d: only kind='previous' with tuple fill is modelled symbolically")
+        return _ShimInterp1dPrevious(t1, v1, fill_value)
+
+
+class ShimScipy:
+    def __init__(self):
+        import scipy
+        import scipy.interpolate
+        import scipy.optimize
+
+        self._real = scipy
+        self.interpolate = _ShimScipyInterpolate(scipy.interpolate)
+
+    def __getattr__(self, k):
+        return getattr(self._real, k)
+
+
+def sfloat(x):
+    """float() stand-in: identity on proxies (TimeSeries.insert calls float(v); on a python float it is the identity too)"""
+    if is_sym(x):
+        return x
+    return float(x)
+
+
+def patches_for(*modules):
+    """Standard shim bindings for the given imported atomica modules (whatever of np/math/sc/scipy/exp they bind)"""
+    out = []
+    snp = ShimNP()
+    for m in modules:
+        d = m.__dict__
+        if "np" in d:
+            out.append((d, "np", snp))
+        if "math" in d:
+            out.append((d, "math", ShimMath()))
+        if "sc" in d:
+            out.append((d, "sc", ShimSC(d["sc"])))
+        if "scipy" in d:
+            out.append((d, "scipy", ShimScipy()))
+        if "exp" in d:
+            out.append((d, "exp", snp.exp))
+        if "array" in d and d["array"] is _np.array:
+            out.append((d, "array", snp.array))
+        if m.__name__ == "atomica.utils":
+            out.append((d, "float", sfloat))
+    return out
 
 
 class Installed:
